@@ -298,7 +298,73 @@ pub fn gen_crash(t: &mut Tape, site: u64) -> Scenario {
     p.w_zip = 2;
     // a fifth of the jobs is a single block (source, element-wise operators, a sink without
     // repartition): nothing downstream notices the failure, only the join of the worker does
-    let mut sc = if t.draw(5) == 4 {
+    let shape = t.draw(6);
+    let mut sc = if shape == 5 {
+        // a streaming job: channel source (one replica), element-wise operators, optionally a
+        // second branch, one repartition fed by that single replica, element-wise operators, sinks.
+        // The client keeps feeding elements until the failure is reported: every upstream worker
+        // sooner or later sends to the failed replica, so the failure must surface while the
+        // stream is still open
+        let mut g = Gen::new(t, p);
+        // one host: across hosts the demultiplexer only logs a failed hand-over to a dead replica
+        // (network/sync/demultiplexer.rs), so a remote producer learns nothing before the stream
+        // ends - renoir's design, not decided here
+        g.layout = Layout::Local(1 + g.t.draw(6) as u64);
+        let n = [0usize, 3, 20][g.t.draw(3) as usize];
+        let burst = g.elems(n, 7);
+        let si = g.sources.len();
+        g.sources.push(Src::Channel(vec![(0, burst)]));
+        g.steps.push(Step::Source(si));
+        g.attrs.push(Some(Attr { repl: Repl::One, depth: 0, len: n, keys: 7 }));
+        let mut s = g.attrs.len() - 1;
+        let ew = |g: &mut Gen, s: usize| -> usize {
+            let op = match g.t.draw(4) {
+                0 => UnOp::Map(MapFn::Add(1)),
+                1 => UnOp::Filter(PredFn::True),
+                2 => UnOp::FlatMap(FlatFn::Copies(2)),
+                _ => UnOp::KeyByDrop,
+            };
+            g.un(s, op)
+        };
+        for _ in 0..g.t.draw(3) {
+            s = ew(&mut g, s);
+        }
+        let mut branches = vec![];
+        if g.t.draw(3) == 2 {
+            let a = g.attrs[s].take().unwrap();
+            g.steps.push(Step::Split(s, 2));
+            for _ in 0..2 {
+                g.attrs.push(Some(a.clone()));
+                branches.push(g.attrs.len() - 1);
+            }
+        } else {
+            branches.push(s);
+        }
+        for b in branches {
+            let op = match g.t.draw(3) {
+                0 => UnOp::Shuffle,
+                1 => UnOp::Gb(GbForm::KeyedMap, AggFn::Sum),
+                _ => UnOp::RepartBy(Repl::Unlimited, 7),
+            };
+            let mut b = g.un(b, op);
+            for _ in 0..g.t.draw(3) {
+                b = ew(&mut g, b);
+            }
+            g.attrs[b].take();
+            let k = [SinkKind::CollectVec, SinkKind::ForEach, SinkKind::CollectChannelParallel, SinkKind::CollectCount][g.t.draw(4) as usize];
+            g.steps.push(Step::Sink(b, k));
+        }
+        let mut sc = g.finish();
+        sc.stream_until_failure = true;
+        // batches must leave while the stream is open: no large fixed-size batches
+        sc.bm = match sc.knobs.switch_permille % 4 {
+            _ if sc.steps.len() % 2 == 0 => Bm::Single,
+            0 => Bm::Default,
+            1 => Bm::Fixed(1 + sc.steps.len() % 3),
+            _ => Bm::Adaptive(1 + sc.steps.len() % 5, 1000),
+        };
+        sc
+    } else if shape == 4 {
         let mut g = Gen::new(t, p);
         let n = [3usize, 20, 200][g.t.draw(3) as usize];
         let par = g.t.draw(4) != 0;
@@ -320,10 +386,12 @@ pub fn gen_crash(t: &mut Tape, site: u64) -> Scenario {
         gen_pipe(t, p)
     };
     // site index -> (probe, replica ordinal, position): all operators x replicas x {first, 4th, end}
+    let streaming = sc.stream_until_failure;
     sc.crash = Some(CrashPlan {
         probe: (site / 9) as u32,
         replica_ordinal: ((site / 3) % 3) as u32,
-        nth: [0u32, 3, 1_000_000][(site % 3) as usize],
+        // (in a streaming job the iteration only ends when the client closes the channel)
+        nth: [0u32, 3, if streaming { 7 } else { 1_000_000 }][(site % 3) as usize],
         // string and non-string panic payloads
         payload: (((site / 9) + (site % 3)) % 3) as u8,
     });
